@@ -396,6 +396,26 @@ def special_population_case(case):
             env.add_agent(a)
         tmpls = [(), ('X',), ('X', 'Y')]
         tags = (None, 0, 1, '', 2)
+    elif case['how'] == 'falsy_component':
+        # a container-like component that is falsy while empty (defines __len__): attached is attached
+        class Inbox(Core.Component):
+            def __init__(self, agent, model, n):
+                super().__init__(agent, model)
+                self.items = [0] * n
+
+            def __len__(self):
+                return len(self.items)
+        types['I'] = Inbox
+        env = m.environment
+        agents = [Core.Agent(k, m, tag=i % 2) for i, k in enumerate(('empty', 'full', 'none', 'empty_x', 'full_x'))]
+        for a, spec in zip(agents, ((0, ''), (2, ''), (None, 'X'), (0, 'X'), (3, 'X'))):
+            if spec[0] is not None:
+                a.add_component(Inbox(a, m, spec[0]))
+            for t in spec[1]:
+                a.add_component(TYPES[t](a, m))
+        for a in agents:
+            env.add_agent(a)
+        tmpls = [(), ('I',), ('X',), ('I', 'X'), ('X', 'I'), ('I', 'I')]
     elif case['how'] == 'string_tags':
         # tags that are strings - some of them spelled like names in the process-wide tag library ('NONE' always is, 'SHEEP'
         # after Tags.add_tag('SHEEP')): a tag filter compares tags, it does not look names up
@@ -784,7 +804,8 @@ def run(ctx):
             ctx.report(case, v)
             return
     ctx.leg('class_churn_and_detached_env', cases=len(extra))
-    for how in ('class_component', 'odd_agents', 'derived_types', 'compound_tags', 'falsy_tags', 'string_tags', 'many_types',
+    for how in ('class_component', 'odd_agents', 'derived_types', 'compound_tags', 'falsy_tags', 'falsy_component', 'string_tags',
+                'many_types',
                 'long_templates',
                 'grid_unpositioned', 'space_unpositioned'):
         case = {'leg': 'special_population', 'how': how}
@@ -795,7 +816,7 @@ def run(ctx):
         except Violation as v:
             ctx.report(case, v)
             return
-    ctx.leg('special_population', cases=10)
+    ctx.leg('special_population', cases=11)
     for peak, keep in ((90, 12), (300, 20)) if not ctx.small else ((90, 12),):
         for leave in ('front_to_back', 'back_to_front'):
             case = {'leg': 'shrunk', 'peak': peak, 'keep': keep, 'leave': leave}
